@@ -2,13 +2,13 @@ SPECIFICATION TraceSpec
 CONSTANTS
  Kinds = {"c","g","h"}
  Keys = {1,2,3}
- KeyByKind = FALSE
+ KeyByKind = TRUE
  Masks <- FullMask
  Timeouts <- TO_2
  MaxDelta = 1000000
  MaxSteps = 100000000
  MaxNow = 100000000
  MaxGen = 100000000
-INVARIANTS TypeOK ObserveExact NeverDropUncovered DropRemoves KeepKeeps FreshRestart InterferenceIsCrossKind UncoveredUntracked
+INVARIANTS TypeOK StrictObserveExact NoInterference NeverDropUncovered DropRemoves KeepKeeps FreshRestart UncoveredUntracked
 POSTCONDITION TraceAccepted
 CHECK_DEADLOCK FALSE
